@@ -231,7 +231,8 @@ def move_across_break_rule(ctx):
     g = db.fn("newline_del_between", file="src/newlines/del_between.cpp")
     mv = [n for n in g.all_nodes() if n["k"] == "call" and n.get("c") == "Chunk::MoveAfter"]
     r.require(len(mv) == 1, "newline_del_between: %d MoveAfter calls" % len(mv))
-    cs = [(expr_str(g, cn), pol) for cn, pol in g.guard_conds(g.nblock[mv[0]["i"]]) if cn is not None]
+    from ..flow import resolved_conds
+    cs = resolved_conds(g, ReachingDefs(g, db), g.nblock[mv[0]["i"]])
     r.seen()
     r.check(("start->IsSamePreproc(end)", True) in cs or ("end->IsSamePreproc(start)", True) in cs, "newline_del_between/MoveAfter(start)/same-directive",
             db.loc(g, mv[0]), "the open brace is hoisted behind `start` without the test that both lie in the same directive (or both outside): the `{` "
